@@ -265,7 +265,7 @@ Section RemInv.
   Proof.
     induction ids as [|j r IH]; intros s skip now HP; cbn [rem_list].
     - exact HP.
-    - destruct (String.eqb j skip); [apply IH; exact HP|].
+    - destruct (skipped skip j); [apply IH; exact HP|].
       pose proof (rem_rec_P s j now HP) as H.
       destruct (rem_rec s j now) as [s1 [b|e|w|]]; cbn [fst] in *; try exact H.
       apply IH; exact H.
